@@ -272,6 +272,10 @@ class EstimationMethod:
                 md_iter = ({} for _ in range(table.num_rows))  # no decoding needed
             metadata_array = []
             for metadata_dict, mn, vr in zip(md_iter, mean, var):
+                if not isinstance(metadata_dict, dict):
+                    raise tskit.MetadataValidationError(
+                        "Existing metadata is not a mapping to which mn and vr can be added"
+                    )
                 metadata_dict.update((("mn", mn), ("vr", vr)))
                 metadata_array.append(schema.validate_and_encode_row(metadata_dict))
             return metadata_array
